@@ -1433,21 +1433,25 @@ pub fn float_vector_rotate(push_state: &mut PushState, _instruction_cache: &Inst
 /// FLOATVECTOR.SINE: Pushes a FLOATVECTOR item whose elements describe a sine wave. The sine wave
 /// for the element at index i is calulated as A*sin(2*pi*x*i + phi). The amplitude A (1st),
 /// the angle velocity x (2nd) and the phase angle phi (3rd) are taken from the FLOAT stack
-/// (in that order). The vector length is taken from the INTEGER stack.
+/// (in that order). The vector length is taken from the INTEGER stack. If the length is < 0
+/// no vector is pushed.
 pub fn float_vector_sine(push_state: &mut PushState, _instruction_cache: &InstructionCache) {
     if let Some(sine_params) = push_state.float_stack.pop_vec(3) {
         if let Some(vector_size) = push_state.int_stack.pop() {
-            let mut sine_vector = vec![];
-            for i in 0..vector_size as usize {
-                sine_vector.push(
-                    sine_params[2]
-                        * (2.0 * std::f32::consts::PI * sine_params[1] * i as f32 + sine_params[0])
-                            .sin(),
-                )
+            if vector_size >= 0 {
+                let mut sine_vector = vec![];
+                for i in 0..vector_size as usize {
+                    sine_vector.push(
+                        sine_params[2]
+                            * (2.0 * std::f32::consts::PI * sine_params[1] * i as f32
+                                + sine_params[0])
+                                .sin(),
+                    )
+                }
+                push_state
+                    .float_vector_stack
+                    .push(FloatVector::new(sine_vector));
             }
-            push_state
-                .float_vector_stack
-                .push(FloatVector::new(sine_vector));
         }
     }
 }
